@@ -12,7 +12,8 @@ Bufs == {1, 2, 3, 7}
 Variants == {"stream", "doc"}
 
 SeqsUpTo(A, n) == UNION {[1..m -> A] : m \in 0..n}
-NameB == {74, 32, 35, 233}
+\* (195, 169 = C3 A9: a valid multi-byte UTF-8 sequence; 233 alone is not UTF-8: pdfminer keeps such a name as bytes)
+NameB == {74, 32, 35, 233, 195, 169}
 StrB  == {65, 10, 13, 40, 41, 92, 0, 200, 55}
 HexB  == {74, 160, 0, 95}
 
@@ -47,7 +48,9 @@ EA == ArrN(<<>>)
 ED == DictN(<<>>)
 A1 == ArrN(<<I7>>)
 D1 == DictN(<<K1, Sep(<<32>>), I7>>)
-Rep == {N1, I7, R5, S1, H1, TT, NL, RF, Leaf(VInt(-3), <<45, 51>>), Leaf(VReal(4, 0), <<52, 46>>),
+\* a name longer than the 127 bytes ISO 32000-1 Annex C once listed as an implementation limit
+LongName == Leaf(VName([i \in 1..130 |-> 74]), <<47>> \o [i \in 1..130 |-> 74])
+Rep == {N1, I7, R5, S1, H1, TT, NL, RF, LongName, Leaf(VName(<<99, 195, 169>>), <<47, 99, 35, 67, 51, 35, 65, 57>>), Leaf(VInt(-3), <<45, 51>>), Leaf(VReal(4, 0), <<52, 46>>),
         Leaf(VName(<<74, 32>>), <<47, 74, 35, 50, 48>>), Leaf(VName(<<>>), <<47>>),
         Leaf(VStr(<<40, 41>>), <<40, 40, 41, 41>>), Leaf(VStr(<<10>>), <<40, 92, 110, 41>>),
         Leaf(VStr(<<>>), <<60, 62>>), Leaf(VStr(<<160>>), <<60, 97, 48, 62>>), Leaf(VStr(<<65>>), <<40, 92, 49, 48, 49, 41>>)}
